@@ -398,12 +398,26 @@ func monC10(b []byte) string {
 		if u.GraphemeClusterCount(string(b)) != u.GraphemeClusterCount(string(fixed)) {
 			return "GraphemeClusterCount differs after replacement"
 		}
-		_ = u.ReverseString(string(b))
-		_ = u.HasTrailingLineBreak(b)
-		_ = u.HasTrailingLineBreakInString(string(b))
-		g := u.NewGraphemes(string(b))
-		for g.Next() {
-			_ = g.Runes()
+		_ = u.ReverseString(string(b)) // totality only: reversing ill-formed bytes may create well-formed sequences
+		if u.HasTrailingLineBreak(b) != u.HasTrailingLineBreak(fixed) {
+			return "HasTrailingLineBreak differs after replacement"
+		}
+		if u.HasTrailingLineBreakInString(string(b)) != u.HasTrailingLineBreakInString(string(fixed)) {
+			return "HasTrailingLineBreakInString differs after replacement"
+		}
+		g, gf := u.NewGraphemes(string(b)), u.NewGraphemes(string(fixed))
+		for {
+			n1, n2 := g.Next(), gf.Next()
+			if n1 != n2 {
+				return "Graphemes: different number of clusters after replacement"
+			}
+			if !n1 {
+				break
+			}
+			if string(g.Runes()) != string(gf.Runes()) || g.Width() != gf.Width() || g.LineBreak() != gf.LineBreak() ||
+				g.IsWordBoundary() != gf.IsWordBoundary() || g.IsSentenceBoundary() != gf.IsSentenceBoundary() {
+				return "Graphemes: a cluster's code points, width or flags differ after replacement"
+			}
 		}
 		return ""
 	})
@@ -602,6 +616,109 @@ func monC13ops(b []byte, ops string) string {
 }
 
 func checkIf(pos, n int, op rune, check func() string) string { return check() }
+
+// C01 (oracle-free part): every cluster-producing entry point reports the same clusters
+// (FirstGraphemeCluster, FirstGraphemeClusterInString, Step, StepString, Graphemes, GraphemeClusterCount);
+// that these are the clusters of GB1-GB999 is the SPEC stage's comparison of the first of them
+func monC01(b []byte) string {
+	return protect(func() string {
+		s := string(b)
+		n := 0
+		rest, st := s, -1
+		g := u.NewGraphemes(s)
+		rb, stb := b, -1
+		rs, sts := s, -1
+		rsb, stsb := b, -1
+		for len(rest) > 0 {
+			var cl string
+			cl, rest, _, st = u.FirstGraphemeClusterInString(rest, st)
+			if cl == "" {
+				return "empty cluster"
+			}
+			n++
+			var clb []byte
+			clb, rb, _, stb = u.FirstGraphemeCluster(rb, stb)
+			if string(clb) != cl {
+				return fmt.Sprintf("cluster %d: FirstGraphemeCluster %+q, FirstGraphemeClusterInString %+q", n, string(clb), cl)
+			}
+			var c2 string
+			c2, rs, _, sts = u.StepString(rs, sts)
+			if c2 != cl {
+				return fmt.Sprintf("cluster %d: StepString %+q, FirstGraphemeClusterInString %+q", n, c2, cl)
+			}
+			var c3 []byte
+			c3, rsb, _, stsb = u.Step(rsb, stsb)
+			if string(c3) != cl {
+				return fmt.Sprintf("cluster %d: Step %+q, FirstGraphemeClusterInString %+q", n, string(c3), cl)
+			}
+			if !g.Next() || g.Str() != cl {
+				return fmt.Sprintf("cluster %d: Graphemes %+q, FirstGraphemeClusterInString %+q", n, g.Str(), cl)
+			}
+		}
+		if g.Next() {
+			return "Graphemes reports more clusters than FirstGraphemeClusterInString"
+		}
+		if c := u.GraphemeClusterCount(s); c != n {
+			return fmt.Sprintf("GraphemeClusterCount = %d, FirstGraphemeClusterInString finds %d clusters", c, n)
+		}
+		return ""
+	})
+}
+
+// C06 (oracle-free part): StringWidth is the sum of the cluster widths; FirstGraphemeCluster(InString),
+// Step(String) and Graphemes.Width report the same width for the same cluster, whether the cluster is
+// reached through chained states or segmented on its own
+func monC06(b []byte) string {
+	return protect(func() string {
+		s := string(b)
+		sum := 0
+		rest, st := s, -1
+		g := u.NewGraphemes(s)
+		rb, stb := b, -1
+		rs, sts := s, -1
+		rsb, stsb := b, -1
+		for len(rest) > 0 {
+			var cl string
+			var w int
+			cl, rest, w, st = u.FirstGraphemeClusterInString(rest, st)
+			if cl == "" {
+				return "empty cluster"
+			}
+			sum += w
+			var clb []byte
+			var wb int
+			clb, rb, wb, stb = u.FirstGraphemeCluster(rb, stb)
+			if string(clb) != cl || wb != w {
+				return fmt.Sprintf("FirstGraphemeCluster reports cluster %+q width %d, FirstGraphemeClusterInString %+q width %d", string(clb), wb, cl, w)
+			}
+			var c2 string
+			var bd int
+			c2, rs, bd, sts = u.StepString(rs, sts)
+			if c2 != cl || bd>>u.ShiftWidth != w {
+				return fmt.Sprintf("StepString reports cluster %+q width %d, FirstGraphemeClusterInString %+q width %d", c2, bd>>u.ShiftWidth, cl, w)
+			}
+			var c3 []byte
+			c3, rsb, bd, stsb = u.Step(rsb, stsb)
+			if string(c3) != cl || bd>>u.ShiftWidth != w {
+				return fmt.Sprintf("Step reports cluster %+q width %d, FirstGraphemeClusterInString %+q width %d", string(c3), bd>>u.ShiftWidth, cl, w)
+			}
+			if !g.Next() || g.Str() != cl || g.Width() != w {
+				return fmt.Sprintf("Graphemes reports cluster %+q width %d, FirstGraphemeClusterInString %+q width %d", g.Str(), g.Width(), cl, w)
+			}
+			// the same cluster on its own
+			if _, _, w1, _ := u.FirstGraphemeClusterInString(cl, -1); w1 != w {
+				return fmt.Sprintf("cluster %+q has width %d in the chain and %d on its own", cl, w, w1)
+			}
+			if u.StringWidth(cl) != w {
+				return fmt.Sprintf("cluster %+q has width %d in the chain and StringWidth %d", cl, w, u.StringWidth(cl))
+			}
+		}
+		if sw := u.StringWidth(s); sw != sum {
+			return fmt.Sprintf("StringWidth = %d, sum of the cluster widths = %d", sw, sum)
+		}
+		return ""
+	})
+}
 
 // C14: count and reverse
 func monC14(b []byte) string {
